@@ -866,6 +866,13 @@ def mon_C12(sc, trace):
     done = P and P[-1][0] == "end" and P[-1][1] == "done" and sc["maxit"] is None
     if done and counts and max(counts) != min(counts) and sc["dur"] is not None:
         v.append("C12: the run ended by duration but nodes got different numbers of telemetry: %s" % counts)
+    # own position right after the update: the update on which a node lands puts it ON its target, and that
+    # is what the telemetry of that very update must carry (positions are observable only through telemetry)
+    for m in mon_C11(sc, trace):
+        if "was within one step" in m:
+            v.append("C12: telemetry of a landing update does not carry the node's position right after that update (its target): "
+                     + m[len("C11: "):])
+            break
     # own position: a node that never got a target reports its initial position for ever
     moved = set()
     for t in P:
